@@ -115,12 +115,24 @@ def outcome (es : List Entity) :
 -- the empty list: no call to `B` at all, `animals: []`
 #guard outcome [] == some (some [("animals", .arr [])], [], [("A", [[]])])
 
--- the hypothesis "every reference resolves" (`hent`) is forced: with a dangling reference the single
--- server answers `[{…}, null]` but the gateway fails the whole request (`FindInsertionPoints` wants
--- every element of a list on a stitch path to be an object) — the open finding
--- `C01-null-in-object-list`, here on the model
+-- a dangling reference: the single server answers `[{…}, null]`. Before the repair of
+-- `FindInsertionPoints` the gateway failed the whole request ("entry in result wasn't a map": every
+-- element of a list on a stitch path had to be an object — defect `C01-null-in-object-list`); with
+-- the guard `if iEntry == nil { continue }` (regenerated fact `Gen.Nulls.findIPSkipsNullElements`)
+-- the null keeps its place, ONE lookup goes to `B`, and the answer is the single server's.
+-- `C01_flat_list_nulls_one_hop` is the theorem for every such list.
 def ghost : Entity := ⟨"QW5pbWFsOjk=", "Animal", []⟩
-#guard outcome [e1, ghost] == some (none, ["entry in result wasn't a map"], [])
+#guard outcome [e1, ghost] ==
+  (if Gen.Nulls.findIPSkipsNullElements then
+    some (some [("animals", .arr [y "rex" "7", .null])], [], [("A", [[]]), ("B", [[("id", .str e1.id)]])])
+   else some (none, ["entry in result wasn't a map"], []))
 #guard Spec.eval ctx.schema (dataOf [e1, ghost]) op [] == some (.obj [("animals", .arr [.obj x1, .null])])
+-- nothing but dangling references: no call to `B`; the list of nulls stays in the response (the
+-- scrubber deleted it before the repair: `Gen.Nulls.cleanKeepsListWithNonMapElement`)
+#guard outcome [ghost, ghost] ==
+  (if Gen.Nulls.findIPSkipsNullElements then
+    some (some (if Gen.Nulls.cleanKeepsListWithNonMapElement then [("animals", .arr [.null, .null])] else []), [],
+      [("A", [[]])])
+   else some (none, ["entry in result wasn't a map"], []))
 
 end PebblesVerif.FlatList.Example
